@@ -185,9 +185,14 @@ Print Assumptions C05_error_line_col.
       - [\(], [\[], [$] inserted at top level in front of items that are also a
         well-formed formula body (no formula directly among them) and, for [$],
         not directly in front of another [$]: same error.
-    NOT covered (differential testing only): [}] inserted in a group or macro
-    argument (it closes that construct early; the error is raised at a later
-    closing brace), [\)] / [\]] inside a formula of the same kind, [$] used as a
+      - [}] inserted in a group, itself in a chain of directly nested groups
+        that stands in the top-level body or in a formula body
+        ([C05_fault_closing_brace_in_groups_partial]): every group of the chain
+        is closed one brace early, the error "unexpected closing brace" is AT
+        the closing brace of the outermost group of the chain.
+    NOT covered (differential testing only): [}] inserted in a macro argument
+    (it closes the argument early; what follows is read as the next argument or
+    in the enclosing body), [\)] / [\]] inside a formula of the same kind, [$] used as a
     closing delimiter, an opening delimiter inserted inside a nested body or in
     front of items that contain a formula, [\begin{x}], insertion points inside an
     item (between the tokens of a macro call, inside whitespace), the grammar
@@ -248,6 +253,26 @@ Theorem C05_fault_opening_partial : forall cx l1 l2 dtr op,
     parse_top s false cx (walker_state cx) = PErr e (length s)
     /\ pe_pos e = Some (length (unparse_items l1) + length (open_text op)) /\ pe_what e = 6.
 Proof. exact fault_opening_doc. Qed.
+
+(** ** A closing brace inserted in a group closes it early; the group's own
+    closing brace then closes the enclosing group, and so on outwards through
+    the chain of directly nested groups [chain] (outermost first; [outer] is the
+    path down to the body that holds the outermost of them, a body that is not
+    a group's or macro argument's: top level or a formula).  The closing brace
+    of the OUTERMOST group of the chain is the one that is rejected: with
+    [(L, W, R) = early chain l1 l2] — the faulted body reads as the items [L],
+    whitespace [W], the left-over brace, then [R] — the error is an
+    "unexpected closing brace" (2) located at that brace. *)
+Theorem C05_fault_closing_brace_in_groups_partial : forall cx outer chain l1 l2 dtr,
+  forallb is_grp chain = true -> chain <> [] -> closes_hole (lefts outer) SBrace = false ->
+  ok_doc cx (zdoc (outer ++ chain) l1 l2 dtr) = true ->
+  let '(L, W, R) := early chain l1 l2 in
+  let q := length (lp_text (lefts outer)) + length (unparse_items L) + length W in
+  exists e,
+    parse_top (zleft (outer ++ chain) l1 ++ [125%N] ++ zright (outer ++ chain) l2 dtr) false cx (walker_state cx)
+    = PErr e (q + 1)
+    /\ pe_pos e = Some q /\ pe_what e = 2.
+Proof. exact fault_closing_brace_chain. Qed.
 
 (** ** Non-vacuity *)
 Open Scope N_scope.
@@ -312,7 +337,27 @@ Proof.
   split; [reflexivity|]. split; [reflexivity|]. eexists; repeat split.
 Qed.
 
+(** [a $b {c {d e} f} g$ h]: a brace inserted between [d] and [ e] closes the
+    inner group, the inner group's brace closes the outer one, the outer one's
+    brace (offset 16 of the faulted text) is rejected in the formula body *)
+Example C05_fault_closing_brace_in_groups_nonvacuous :
+  let outer := [FMath [Text [] [97]] [32] MDollar [] [Text [32] [104]]] in
+  let chain := [FGrp [Text [] [98]] [32] [] [Text [32] [103]];
+                FGrp [Text [] [99]] [32] [] [Text [32] [102]]] in
+  let l1 := [Text [] [100]] in let l2 := [Text [32] [101]] in
+  ok_doc default_ctx (zdoc (outer ++ chain) l1 l2 []) = true /\
+  unparse (zdoc (outer ++ chain) l1 l2 []) = [97;32;36;98;32;123;99;32;123;100;32;101;125;32;102;125;32;103;36;32;104] /\
+  closes_hole (lefts outer) SBrace = false /\
+  match early chain l1 l2 with
+  | (L, W, R) => (length (lp_text (lefts outer)) + length (unparse_items L) + length W)%nat
+  end = 16%nat /\
+  exists e, parse_top (zleft (outer ++ chain) l1 ++ [125] ++ zright (outer ++ chain) l2 []) false default_ctx
+                      (walker_state default_ctx) = PErr e 17
+            /\ pe_pos e = Some 16%nat /\ pe_what e = 2%nat.
+Proof. vm_compute. repeat split. eexists. repeat split. Qed.
+
 Print Assumptions C05_zdoc_text.
 Print Assumptions C05_fault_closing_partial.
 Print Assumptions C05_fault_closing_any_suffix_partial.
 Print Assumptions C05_fault_opening_partial.
+Print Assumptions C05_fault_closing_brace_in_groups_partial.
